@@ -133,13 +133,18 @@ func newPkg(pkg *packages.Package, u *Universe) Package {
 				if named != nil {
 					p.methods[named] = append(p.methods[named], x)
 				}
-			} else {
+			} else if x.Parent() == p.Package.Types.Scope() {
 				p.funcs[x.Name()] = x
 			}
 		case *types.TypeName:
-			p.types[x.Name()] = x
+			// function-local declarations and type parameters are not package members
+			if x.Parent() == p.Package.Types.Scope() {
+				p.types[x.Name()] = x
+			}
 		case *types.Const:
-			p.constants[x.Name()] = x
+			if x.Parent() == p.Package.Types.Scope() {
+				p.constants[x.Name()] = x
+			}
 		}
 	}
 
